@@ -1416,6 +1416,300 @@ class TerminationStream(Stream):
                 "files": {k: v if len(v) < 1500 else v[:700] + " ... " + v[-700:] for k, v in case["files"].items()}}
 
 
+# --------------------------------------------------------------------------
+# stream 9: every invocation shape of annotate over files that cannot be read, vanish or change their kind at ANY moment of the run
+
+SHAPE_FILES = {
+    # name -> content; what the documentation says about the name: recognised comment style / uncommentable / unrecognised
+    "tool.py": "print(1)\n", "lib/util.c": "int u;\n", "lib/page.html": "<p>x</p>\n", "lib/has.py": HDR + "x = 1\n",
+    "incoming.dat": "1;2;3\n", "lib/NOTES": "notes without an extension\n", "lib/blob.qqq": bytes(range(256)) * 3,
+    "lib/pic.png": b"\x89PNG\r\n\x1a\n" + bytes(range(200)), "lib/empty.dat": "", "lib/deep/more.py": "m = 1\n", "lib/deep/raw.xyz": "raw\n",
+}
+SHAPE_RECOGNISED = ["tool.py", "lib/util.c", "lib/page.html", "lib/has.py", "lib/deep/more.py"]
+SHAPE_OPTIONS = {
+    "plain": [], "style": ["--style", "python"], "force": ["--force-dot-license"], "fallback": ["--fallback-dot-license"],
+    "skip": ["--skip-unrecognised"], "skip-existing": ["--skip-existing"], "multi": ["--multi-line"], "single": ["--single-line"],
+    "no-replace": ["--no-replace"], "merge": ["--merge-copyrights"], "fallback+skip-existing": ["--fallback-dot-license", "--skip-existing"],
+    "style+multi": ["--style", "c", "--multi-line"], "template-missing": ["--template", "nonexistent"], "year": ["--year", "2001", "--exclude-year"],
+}
+# the four options that say what happens to a file without a recognised comment style
+SHAPE_DECIDES = ("style", "force", "fallback", "skip", "fallback+skip-existing", "style+multi")
+FAULT_ACTIONS = ["vanish", "eacces", "to-dir", "to-dangling"]
+MAX_TOUCH = 16
+_DROP = "-dac_override,-dac_read_search"
+SETPRIV = ["setpriv", "--inh-caps=" + _DROP, "--bounding-set=" + _DROP]
+
+
+class Touches:
+    """Fault injection by counting: every question the process asks the operating system about one of the chosen paths (stat,
+    lstat, access, open -- whoever asks, wherever in the run) is a 'touch'; at the n-th touch of a path its fault happens: the
+    file is gone ('vanish'), has become a directory ('to-dir') or a dangling link ('to-dangling'), or -- from then on -- cannot be
+    opened for reading and is not readable for access() ('eacces': what a write-only file is for an unprivileged user)."""
+
+    NAMES = [("os", "stat"), ("os", "lstat"), ("os", "access"), ("os", "open"), ("builtins", "open"), ("io", "open")]
+
+    def __init__(self, root, faults):
+        self.root = root
+        self.faults = {os.path.normpath(os.path.join(root, f["path"])): dict(f, count=0, done=False) for f in faults}
+        self.saved = {}
+
+    def fault_of(self, p):
+        if isinstance(p, int):
+            return None
+        try:
+            p = os.fsdecode(os.fspath(p))
+        except TypeError:
+            return None
+        return self.faults.get(os.path.normpath(os.path.join(os.getcwd(), p)))
+
+    def touch(self, p, reading=False, access_r=False):
+        """-> 'deny' when the caller has to fail with EACCES"""
+        f = self.fault_of(p)
+        if f is None:
+            return None
+        f["count"] += 1
+        full = os.path.normpath(os.path.join(self.root, f["path"]))
+        if f["count"] >= f["nth"]:
+            if f["action"] == "eacces":
+                return "deny" if (reading or access_r) else None
+            if not f["done"]:
+                f["done"] = True
+                lstat, unlink = self.saved[("os", "lstat")], os.unlink
+                try:
+                    lstat(full)
+                    unlink(full)
+                except OSError:
+                    pass
+                if f["action"] == "to-dir":
+                    os.mkdir(full)
+                elif f["action"] == "to-dangling":
+                    os.symlink("nowhere-at-all", full)
+        return None
+
+    def __enter__(self):
+        import builtins
+        import errno
+        import io
+        mods = {"os": os, "builtins": builtins, "io": io}
+        for m, n in self.NAMES:
+            self.saved[(m, n)] = getattr(mods[m], n)
+        me = self
+
+        def deny(p):
+            raise PermissionError(errno.EACCES, os.strerror(errno.EACCES), os.fspath(p))
+
+        def wrap_stat(orig):
+            def f(p, *a, **k):
+                me.touch(p)
+                return orig(p, *a, **k)
+            return f
+
+        def access(p, mode, *a, **k):
+            if me.touch(p, access_r=bool(mode & os.R_OK)) == "deny":
+                return False
+            return me.saved[("os", "access")](p, mode, *a, **k)
+
+        def os_open(p, flags, *a, **k):
+            if me.touch(p, reading=(flags & os.O_ACCMODE) != os.O_WRONLY) == "deny":
+                deny(p)
+            return me.saved[("os", "open")](p, flags, *a, **k)
+
+        def wrap_open(orig):
+            def f(file, mode="r", *a, **k):
+                if me.touch(file, reading=not (set(mode) & set("wax")) or "+" in mode) == "deny":
+                    deny(file)
+                return orig(file, mode, *a, **k)
+            return f
+
+        os.stat, os.lstat = wrap_stat(self.saved[("os", "stat")]), wrap_stat(self.saved[("os", "lstat")])
+        os.access, os.open = access, os_open
+        builtins.open = wrap_open(self.saved[("builtins", "open")])
+        io.open = wrap_open(self.saved[("io", "open")])
+        return self
+
+    def __exit__(self, *exc):
+        import builtins
+        import io
+        mods = {"os": os, "builtins": builtins, "io": io}
+        for (m, n), v in self.saved.items():
+            setattr(mods[m], n, v)
+        return False
+
+
+def shape_snapshot(root):
+    snap = {}
+    for dp, dn, fn in os.walk(root):
+        for n in dn + fn:
+            p = os.path.join(dp, n)
+            rel = os.path.relpath(p, root)
+            if os.path.islink(p):
+                snap[rel] = "L" + os.readlink(p)
+            elif os.path.isdir(p):
+                snap[rel] = "D"
+            else:
+                with open(p, "rb") as fp:
+                    snap[rel] = "F" + fp.read().hex()
+    return snap
+
+
+class AnnotateShapesStream(Stream):
+    name = "annotate-shapes"
+    rule = ("every invocation shape of `reuse annotate` (--recursive over the project / a sub-directory, files named one by one, both; %d "
+            "option sets: none, --style, --force-dot-license, --fallback-dot-license, --skip-unrecognised, --skip-existing, --multi-line, "
+            "--single-line, --no-replace, --merge-copyrights, --template, --year, combinations) over a tree of files with a recognised "
+            "comment style, without one (.dat, .xyz, .qqq binary, no extension), uncommentable (.png) and empty, of which 1-2 carry a "
+            "fault: in-process, the fault strikes at the n-th question (stat, lstat, access, open; n = 1..%d) that anybody asks about "
+            "the file -- it vanishes, becomes a directory, becomes a dangling link, or can no longer be opened for reading (EACCES, "
+            "access(R_OK) false) --, so that every moment of the run is hit (argument validation, the walk, the expansion of the "
+            "arguments, the verification of comment styles and line handling, the per-file loop); in a child `python -m reuse` started "
+            "through setpriv without CAP_DAC_OVERRIDE / CAP_DAC_READ_SEARCH (where available), files of mode 0200 / 0000 and a directory "
+            "of mode 0000 give the kernel's own EACCES. Oracle only (property text): no traceback, exit status in {0, 1, 2}; a usage "
+            "error (2) leaves every file as it was; with 0 or 1 every file that has a recognised style, no fault and was selected is "
+            "annotated (the fault of one file does not abort the run); a file with a fault is never half-written (unchanged, or complete "
+            "header); non-trivial = distinct (shape, options, action, moment, exit status)" % (len(SHAPE_OPTIONS), MAX_TOUCH))
+
+    def gen(self, rng, mode, action=None, nth=None, opt=None, unrecognised=None):
+        names = sorted(SHAPE_FILES)
+        unrec = [n for n in names if n not in SHAPE_RECOGNISED]
+        faults = []
+        k = rng.choice([1, 1, 1, 2])
+        victims = rng.sample(names, k)
+        if unrecognised or (unrecognised is None and rng.random() < 0.6):
+            victims[0] = rng.choice([n for n in unrec if n != "lib/empty.dat"])
+        for v in dict.fromkeys(victims):
+            if mode == "child":
+                faults.append({"path": v, "action": rng.choice(["mode-0200", "mode-0000", "mode-0200"])})
+            else:
+                faults.append({"path": v, "action": action or rng.choice(FAULT_ACTIONS), "nth": nth or rng.randint(1, MAX_TOUCH)})
+                action = nth = None
+        if mode == "child" and rng.random() < 0.3:
+            faults.append({"path": "lib/deep", "action": "mode-0000"})
+        shape = rng.choice(["recursive", "recursive", "named", "both"])
+        case = {"mode": mode, "faults": faults, "opt": opt or rng.choice(sorted(SHAPE_OPTIONS)), "recursive": shape != "named"}
+        named = []
+        if shape in ("recursive", "both"):
+            named.append(rng.choice([".", ".", "lib", "lib/deep"]))
+        if shape in ("named", "both"):
+            pool = [f["path"] for f in faults if f["path"] in SHAPE_FILES] * 2 + names
+            named += list(dict.fromkeys(rng.sample(pool, rng.randint(1, 4))))
+        case["named"] = named
+        return case
+
+    def cases(self, tier, rng):
+        import shutil
+        thorough = tier == "thorough"
+        # every moment x every action x (no option | one that decides about unrecognised files), on a file without a recognised style
+        for nth in range(1, MAX_TOUCH + 1):
+            for i, action in enumerate(FAULT_ACTIONS):
+                for opt in (("plain", "skip", "fallback", "force", "style") if thorough else ("plain" if (nth + i) % 2 else rng.choice(SHAPE_DECIDES),)):
+                    c = self.gen(rng, "inproc", action, nth, opt, unrecognised=True)
+                    if not thorough and nth > 1:
+                        # (a named file is asked about more often before the command body starts: the late moments are reached
+                        # through the recursive shapes)
+                        c["recursive"], c["named"] = True, [rng.choice([".", "lib"])]
+                        c["faults"] = c["faults"][:1]
+                    yield c
+        for _ in range(900 if thorough else 50):
+            yield self.gen(rng, "inproc")
+        if shutil.which("setpriv"):
+            for opt in (sorted(SHAPE_OPTIONS) if thorough else ["plain", "skip", "fallback"]):
+                for _ in range(3 if thorough else 2):
+                    yield self.gen(rng, "child", opt=opt, unrecognised=True)
+            for _ in range(60 if thorough else 4):
+                yield self.gen(rng, "child")
+
+    def argv(self, case):
+        return ["annotate", "-c", "Joe Bloggs", "-l", "0BSD"] + SHAPE_OPTIONS[case["opt"]] + (["--recursive"] if case["recursive"] else []) + case["named"]
+
+    def impl(self, case):
+        import subprocess
+        import sys
+        with cli.scratch("rv-c16s-") as root:
+            root = os.path.realpath(root)
+            cli.write_tree(root, dict(SHAPE_FILES))
+            before = shape_snapshot(root)
+            try:
+                if case["mode"] == "child":
+                    for f in case["faults"]:
+                        os.chmod(os.path.join(root, f["path"]), {"mode-0200": 0o200, "mode-0000": 0}[f["action"]])
+                    probe = subprocess.run(SETPRIV + ["cat", os.path.join(root, case["faults"][0]["path"])], capture_output=True)
+                    if probe.returncode == 0:
+                        return "skipped:setpriv does not take the capabilities away here"
+                    src = os.path.join(os.environ.get("REUSE_VERIF_REPO", "/repo"), "src")
+                    r = subprocess.run(SETPRIV + [sys.executable, "-m", "reuse"] + self.argv(case), cwd=root, capture_output=True, text=True,
+                                       env=dict(os.environ, PYTHONPATH=src, PYTHONDONTWRITEBYTECODE="1"), timeout=TIME_LIMIT)
+                    code = r.returncode
+                    tb = "Traceback (most recent call last)" in r.stderr
+                    exc = r.stderr.strip().splitlines()[-1][:160] if tb else None
+                else:
+                    with Touches(root, case["faults"]) as t:
+                        code, out, e = cli.run_cli(self.argv(case), root)
+                    exc = None if e is None else "%s: %s" % (type(e).__name__, str(e).replace(root, "<root>")[:120])
+                    case = dict(case, _touched={f["path"]: f["count"] for f in t.faults.values()})
+            finally:
+                for dp, dn, fn in os.walk(root):
+                    for n in dn + fn:
+                        if not os.path.islink(os.path.join(dp, n)):
+                            os.chmod(os.path.join(dp, n), 0o755)
+            after = shape_snapshot(root)
+            changed = sorted(k for k in set(before) | set(after) if before.get(k) != after.get(k))
+            marks = {}
+            for k in changed:
+                a = after.get(k)
+                marks[k] = ("gone" if a is None else "dir" if a == "D" else "link" if a.startswith("L") else
+                            "annotated" if a.startswith("F") and b"Joe Bloggs" in bytes.fromhex(a[1:]) and b"0BSD" in bytes.fromhex(a[1:]) else
+                            "empty" if a == "F" else "other")
+            return json.dumps({"exit": code, "exc": exc, "changed": marks, "touched": case.get("_touched")}, sort_keys=True)
+
+    def oracle(self, case, impl_out):
+        if impl_out.startswith("skipped"):
+            return None
+        what = " [`reuse %s`; %s]" % (" ".join(self.argv(case)), ", ".join(
+            "%s %s%s" % (f["path"], f["action"], " at touch %d" % f["nth"] if "nth" in f else "") for f in case["faults"]))
+        if impl_out.startswith(("timeout", "EXC")):
+            return "traceback: %s%s" % (impl_out, what)
+        r = json.loads(impl_out)
+        if r["exc"]:
+            return "traceback: the run ended in an unhandled %s%s" % (r["exc"], what)
+        if r["exit"] not in (0, 1, 2):
+            return "exit-status: %s%s" % (r["exit"], what)
+        faulty = {f["path"] for f in case["faults"]}
+        below = lambda p: any(p == f or p.startswith(f + "/") or p == f + ".license" for f in faulty)
+        if r["exit"] == 2:
+            stray = sorted(k for k in r["changed"] if not below(k))
+            if stray:
+                return "usage-error-after-writing: exit 2 but %s changed%s" % (stray, what)
+            return None
+        for k, m in r["changed"].items():
+            if m in ("other", "empty") and not (m == "empty" and k.endswith(".license") and below(k)):
+                return "half-written: %s is %s after the run%s" % (k, m, what)
+        # the fault of one file does not abort the run: the healthy selected files with a recognised style are annotated
+        selected = set()
+        for n in case["named"]:
+            if n in SHAPE_FILES:
+                selected.add(n)
+            elif case["recursive"]:
+                selected |= {f for f in SHAPE_FILES if n == "." or f.startswith(n + "/")}
+        if case["opt"] == "template-missing":
+            return "accepted-missing-template: exit %s%s" % (r["exit"], what)
+        for f in sorted(selected):
+            if f in SHAPE_RECOGNISED and not below(f) and not (case["opt"] in ("skip-existing", "fallback+skip-existing") and f == "lib/has.py"):
+                target = f + ".license" if case["opt"] == "force" else f
+                if r["changed"].get(target) != "annotated":
+                    return "neighbour-disturbed: %s was selected, is healthy and has a comment style but was not annotated (exit %s)%s" % (f, r["exit"], what)
+        return None
+
+    def nontrivial(self, case, impl_out):
+        if not impl_out.startswith("{"):
+            return None
+        r = json.loads(impl_out)
+        f = case["faults"][0]
+        return ("r" if case["recursive"] else "n", len(case["named"]) > 1, case["opt"], f["action"], f.get("nth"), r["exit"])
+
+    def show(self, case):
+        return {"argv": self.argv(case), "faults": case["faults"], "mode": case["mode"], "tree": sorted(SHAPE_FILES)}
+
+
 def bounded(stream_cls):
     """Every command run of the stream happens in a child process with the time limit: a run that does not come back is the
     observation 'timeout:<s>' and the oracle reports it as 'does not terminate'.  The cases the stream generates are handed to
@@ -1462,23 +1756,26 @@ def bounded(stream_cls):
     return stream_cls
 
 
-for _cls in (CliStream, PerFileStream, AnnotateStream, WalkRaceStream, TerminationStream):
+for _cls in (CliStream, PerFileStream, AnnotateStream, WalkRaceStream, TerminationStream, AnnotateShapesStream):
     bounded(_cls)
 
 
 PROPERTY = Property(
     pid="C16",
-    streams=[ShapeStream(), TreeStream(), BytesStream(), CliStream(), PerFileStream(), AnnotateStream(), TemplateStream(), WalkRaceStream(), TerminationStream()],
+    streams=[ShapeStream(), TreeStream(), BytesStream(), CliStream(), PerFileStream(), AnnotateStream(), AnnotateShapesStream(), TemplateStream(), WalkRaceStream(), TerminationStream()],
     assumptions=[
         "tomlkit, python-debian and the UTF-8 codec are oracles of the model: the outcomes 'not TOML' (TOMLKitError), 'not a dep5 file' "
         "(debian Error / ValueError) and 'not UTF-8' (UnicodeDecodeError) are enumerated inputs of Model.tomlFromFile / dep5FromFile; that "
         "these libraries raise nothing else is checked by the bytes stream (truncations, seeded mutations, NUL, invalid UTF-8, 1 MB lines), not proved",
         "Licensing.parse is the oracle parameter `parses` of the model (expression / None / ExpressionError|ParseError); the harness fills it "
         "from the real library for every string of a case; that it raises nothing else is exercised, not proved",
-        "the sandbox runs as root, so permission-denied reads cannot be provoked with chmod: an unreadable covered file is represented by a "
-        "file that vanishes between the directory walk (or argument validation) and the read — the same OSError path in "
-        "_MultiprocessingContainer.__call__ / the annotate loop; PermissionError on a configuration file is the model's `osError` input "
-        "(mapped to exit 2 by C16_exit) and is not exercised end to end",
+        "the sandbox runs as root, so permission-denied reads cannot be provoked with chmod alone: in the lint-family streams an unreadable covered "
+        "file is represented by a file that vanishes between the directory walk (or argument validation) and the read — the same OSError path in "
+        "_MultiprocessingContainer.__call__ / the annotate loop; for annotate (stream annotate-shapes) the kernel's own EACCES is obtained in a "
+        "child `python -m reuse` started through setpriv without CAP_DAC_OVERRIDE / CAP_DAC_READ_SEARCH (skipped where setpriv cannot drop them), "
+        "and in-process by fault injection at the n-th stat / lstat / access / open of the chosen path (os.stat, os.lstat, os.access, os.open, "
+        "builtins.open, io.open are wrapped; questions asked through os.scandir entries are not counted); PermissionError on a configuration file "
+        "is the model's `osError` input (mapped to exit 2 by C16_exit) and is not exercised end to end",
         "bdb.BdbQuit / KeyboardInterrupt (re-raised on purpose by _process_error for debugging) are outside the model's FileRes.exc",
         "project loading is claimed under the hypothesis that the files in LICENSES/ resolve to distinct identifiers (C16_*_partial); the "
         "excluded shape is a recorded known finding with a proved witness (C16_duplicate_license_witness)",
